@@ -179,7 +179,12 @@ def heavy_hitters(prog, rep):
         for e in p.events:
             if e.kind == "setfield" and e.base == SELF and e.name == "_HeavyHitters__top_x_size":
                 v = strip_epochs(e.value)
-                if v != ("call", ("g", "len"), (table,), ()):
+                absent = member is False or any(c.truth and strip_epochs(c.atom)[:2] == ("cmp", "is") and strip_epochs(c.atom)[3] == C(None) and
+                                                strip_epochs(c.atom)[2] in (("call", ("m", table, "get"), (key, C(None)), ()), ("call", ("m", table, "get"), (key,), ()))
+                                                for c in p.conds)
+                plus_one = canon(v) == canon(("bin", "+", size, C(1))) and len(sets) == 1 and not pops and absent
+                # count + 1 next to the store of exactly one key known to be absent: len(table) again, by induction
+                if v != ("call", ("g", "len"), (table,), ()) and not plus_one:
                     rep.bad("C17.hitters-bookkeeping", where, f"size = {nshow(v)}", "the tracked-key count is set to something other than len(table)", e.where())
                     good = False
             if e.kind == "setfield" and e.base == SELF and e.name == "_HeavyHitters__smallest":
